@@ -42,6 +42,9 @@ type scope struct {
 
 	// State
 	disposed int32 // atomic
+
+	// closed is closed once Close has finished disposing everything
+	closed chan struct{}
 }
 
 func newScope(rootProvider *provider, parent *scope, ctx context.Context, cancel context.CancelFunc) (*scope, error) {
@@ -60,6 +63,7 @@ func newScope(rootProvider *provider, parent *scope, ctx context.Context, cancel
 		instances:    make(map[instanceKey]any, 8), // Pre-size for typical usage
 		disposables:  make([]Disposable, 0, 4),
 		children:     make(map[*scope]struct{}, 2),
+		closed:       make(chan struct{}),
 	}
 
 	ctx = context.WithValue(ctx, scopeContextKey{}, s)
@@ -214,8 +218,13 @@ func (s *scope) CreateScope(ctx context.Context) (Scope, error) {
 // Close disposes the scope and all its resources
 func (s *scope) Close() error {
 	if !atomic.CompareAndSwapInt32(&s.disposed, 0, 1) {
-		return nil // Already closed
+		// Already closed, or being closed by another goroutine (for example the
+		// context watcher woken by the parent's cancellation): wait until that
+		// Close has finished so that callers never proceed past a half-closed scope
+		<-s.closed
+		return nil
 	}
+	defer close(s.closed)
 
 	var errs []error
 
